@@ -1,5 +1,43 @@
-use serde_json::Value;
+use crate::ops::{b, cps, s};
+use serde_json::{json, Value};
+use text_utils::{text, windows};
 
-pub fn dispatch(op: &str, _req: &Value) -> Result<Value, String> {
-    Err(format!("unknown op {op}"))
+fn big(req: &Value, k: &str) -> Result<usize, String> {
+    // 64-bit values travel as decimal strings
+    req.get(k).and_then(|v| v.as_str()).ok_or(format!("missing {k}"))?.parse::<usize>().map_err(|e| e.to_string())
+}
+
+pub fn dispatch(op: &str, req: &Value) -> Result<Value, String> {
+    match op {
+        "windows" => {
+            let st = s(req, "s")?;
+            let kind = req.get("kind").and_then(|v| v.as_str()).ok_or("missing kind")?;
+            let (mx, cx, g) = (big(req, "max")?, big(req, "ctx")?, b(req, "g")?);
+            let r = if b(req, "dispatch")? {
+                let cfg = match kind {
+                    "char" => windows::WindowConfig::Character(mx, cx, g),
+                    "byte" => windows::WindowConfig::Bytes(mx, cx, g),
+                    _ => windows::WindowConfig::Full(g),
+                };
+                windows::windows(&st, &cfg)
+            } else if kind == "char" {
+                windows::char(&st, mx, cx, g)
+            } else {
+                windows::byte(&st, mx, cx, g)
+            };
+            Ok(match r {
+                Ok(ws) => json!({"Ok": ws.iter().map(|w| {
+                    let (cs_, ws_, we_, ce_) = w.boundaries();
+                    let (bcs, bws, bwe, bce) = w.byte_boundaries();
+                    json!({"ctx_start": cs_, "window_start": ws_, "window_end": we_, "ctx_end": ce_,
+                           "byte_ctx_start": bcs, "byte_window_start": bws, "byte_window_end": bwe, "byte_ctx_end": bce,
+                           "str": cps(w.str)})
+                }).collect::<Vec<_>>()}),
+                Err(_) => json!({"Err": true}),
+            })
+        }
+        "possible_character_substrings" => Ok(json!(text::possible_character_substrings(&s(req, "s")?, big(req, "max")?, b(req, "g")?))),
+        "possible_byte_substrings" => Ok(json!(text::possible_byte_substrings(&s(req, "s")?, big(req, "max")?, b(req, "g")?))),
+        _ => crate::ops6::dispatch(op, req),
+    }
 }
